@@ -429,7 +429,7 @@ static var Array_Iter_Last(var self) {
 
 static var Array_Iter_Prev(var self, var curr) {
   struct Array* a = self;
-  if (curr < Array_Item(a, 0)) {
+  if (curr <= Array_Item(a, 0)) {
     return Terminal;
   } else {
     return (char*)curr - Array_Step(a);
